@@ -144,3 +144,68 @@ def enum_map(fn, param=1):
             continue
         return ty, {v: result_of_arm(fn, tgt) for v, tgt in arms.items()}
     return None
+
+
+# ------------------------------------------------------------------------------------------
+# token sets
+
+
+def _agg_variant(fn, operand, adt_suffix="TokenType"):
+    """variant name if the operand is (a copy of) a field-less aggregate / constant of the enum"""
+    c = operand.get("const")
+    if c is not None:
+        v = c.get("v", "")
+        if adt_suffix in v:
+            return v.rsplit("::", 1)[-1].strip()
+        return None
+    for d, p in origins(fn, operand):
+        if d[0] == "agg" and not p:
+            a = fn.stmts(d[1])[d[2]]["rv"]["agg"]
+            if isinstance(a, dict) and a.get("adt", "").endswith(adt_suffix):
+                return a["variant"]
+    return None
+
+
+def token_set_of(fn, operand, depth=0):
+    """set of TokenType variant names an operand denotes: a single TokenType value, an array / slice of them
+    (inline aggregate, promoted constant, `as_ref()` / unsizing of one), or None when not recognisable"""
+    if depth > 6:
+        return None
+    v = _agg_variant(fn, operand)
+    if v is not None:
+        return {v}
+    c = operand.get("const")
+    if c is not None and "promoted" in c:
+        owner = fn.promoted_of or fn
+        ps = owner.promoteds()
+        if c["promoted"] < len(ps):
+            pb = ps[c["promoted"]]
+            return token_set_of(pb, {"copy": {"l": 0, "p": []}}, depth + 1)
+        return None
+    out = None
+    for d, p in origins(fn, operand):
+        got = None
+        if d[0] == "agg":
+            st = fn.stmts(d[1])[d[2]]
+            a = st["rv"]["agg"]
+            if isinstance(a, dict) and "array" in a:
+                got = set()
+                for o in st["rv"]["ops"]:
+                    s = token_set_of(fn, o, depth + 1)
+                    if s is None:
+                        return None
+                    got |= s
+        elif d[0] == "call":
+            t = fn.term(d[1])
+            name = t["callee"].get("name") if "indirect" not in t["callee"] else None
+            if name in ("as_ref", "borrow", "deref", "as_slice", "into_iter", "iter", "to_owned", "to_vec", "into_vec", "clone", "collect", "from_iter"):
+                got = token_set_of(fn, t["args"][0], depth + 1)
+        elif d[0] == "promoted":
+            owner = fn.promoted_of or fn
+            ps = owner.promoteds()
+            if d[1] < len(ps):
+                got = token_set_of(ps[d[1]], {"copy": {"l": 0, "p": []}}, depth + 1)
+        if got is None:
+            continue
+        out = (out or set()) | got
+    return out
